@@ -96,7 +96,9 @@ def paint_page(page_spec, nchars):
         seq = symbols_for_line(ln, nchars)
         for b, sym in enumerate(seq):
             xs = g['x0'] + b * BLOCK
-            img[g['y'] - 16:g['y'] + 10, xs:xs + BLOCK] = _color(sym)
+            # the ink occupies exactly the line's ascender/descender band, so that a crop taken with a
+            # wrong vertical grid sees background rows
+            img[g['y'] - int(g['hsplit'][0]):g['y'] + int(g['hsplit'][1]), xs:xs + BLOCK] = _color(sym)
     return img
 
 
